@@ -7,15 +7,25 @@ from harness.agree import agrees, klass
 ERR_CELL = {'#N/A': '=NA()', '#DIV/0!': '=1/0'}
 
 
-def formula_cell_call(f, args):
+DECOYS = {'Sheet1!Y90': ('value', True), 'Sheet1!Y91': ('value', 1), 'Sheet1!Y92': ('value', 0), 'Sheet1!Y93': ('value', False),
+          'Sheet1!Y94': ('value', 1.0), 'Sheet1!Y95': ('value', '1'), 'Sheet1!Y96': ('value', 0.0), 'Sheet1!Y97': ('value', '')}
+
+
+def formula_cell_call(f, args, mask=None, decoys=False):
     """like calls.formula_call, but every error / scalar argument is supplied through a referenced cell:
-    errors by a formula that yields them (=NA(), =1/0) or an error literal"""
+    errors by a formula that yields them (=NA(), =1/0) or an error literal.
+    mask: argument positions (i % 2 == mask) that go through cells, the others are written as literals in the formula.
+    decoys: the model also holds constants that are EQUAL as Python values but of other Excel types (TRUE / 1 / 1.0 / "1",
+    FALSE / 0 / 0.0 / ""), and the same evaluator has read them all before the formula is evaluated"""
     cells = {}
     parts = []
     col = 'ABCDEFGHIJKLMNOPQRSTUVWXY'
     for i, a in enumerate(args):
-        if a['t'] == 'arr':
-            parts.append(xl.formula_literal(a, cells))
+        if a['t'] == 'arr' or (mask is not None and i % 2 != mask and a['t'] != 'date'):
+            try:
+                parts.append(xl.formula_literal(a, cells))
+            except xl.MachineryError:
+                return None, None, None
             continue
         addr = f'{col[i]}{50 + i}'
         if a['t'] == 'err':
@@ -30,7 +40,13 @@ def formula_cell_call(f, args):
     else:
         text = '=' + f + '(' + ','.join(parts) + ')'
     try:
-        model, ev = xl.build_model(cells, {'Sheet1!Z1': text})
+        forms = {'Sheet1!Z1': text}
+        if decoys:
+            cells.update(DECOYS)
+            forms['Sheet1!Y99'] = '=COUNTA(Y90:Y97)'
+        model, ev = xl.build_model(cells, forms)
+        if decoys:
+            ev.evaluate('Sheet1!Y99')
         res = ev.evaluate('Sheet1!Z1')
         return xl.to_abs(res), xl.to_abs(ev.get_cell_value('Sheet1!Z1')), text
     except BaseException as e:      # noqa
@@ -69,6 +85,13 @@ def worker(blocks):
         results.append(('formula-cells', o, text))
         if stored is not None:
             results.append(('formula-cells-stored', stored, text))
+        if len(case['args']) >= 2:      # one operand a cell, the other a literal written in the formula - both ways round
+            for mask in (0, 1):
+                o, stored, text = formula_cell_call(case['f'], case['args'], mask=mask)
+                if o is not None:
+                    results.append((f'formula-mixed-{mask}', o, text))
+        o, stored, text = formula_cell_call(case['f'], case['args'], decoys=True)
+        results.append(('formula-cells-decoys', o, text))
         for path, obs, text in results:
             out['calls'] += 1
             if agrees(obs, exp) is False:
@@ -166,7 +189,7 @@ def driver(seed, n):
                 args[j] = e
             else:
                 args[j]['v'][r][c] = e
-        evs.append({'f': f, 'args': args, 'path': ['direct', 'wrapped', 'formula', 'formula-cells'][i % 4]})
+        evs.append({'f': f, 'args': args, 'path': ['direct', 'wrapped', 'formula', 'formula-cells', 'formula-mixed-0', 'formula-mixed-1', 'formula-cells-decoys'][i % 7]})
     return evs
 
 
@@ -177,6 +200,10 @@ def record(chunk):
             res, stored, text = calls.formula_call(e['f'], e['args'])
         elif e['path'] == 'formula-cells':
             res, stored, text = formula_cell_call(e['f'], e['args'])
+        elif e['path'].startswith('formula-mixed'):
+            res, stored, text = formula_cell_call(e['f'], e['args'], mask=int(e['path'][-1]))
+        elif e['path'] == 'formula-cells-decoys':
+            res, stored, text = formula_cell_call(e['f'], e['args'], decoys=True)
         else:
             res = calls.direct_call(e['f'], e['args'], 'native' if e['path'] == 'direct' else 'wrapped')
         if res is not None:
